@@ -172,6 +172,8 @@ def make_chooser(spec) -> Chooser:
         return PCT(spec.get("seed", 0), spec.get("depth", 2), spec.get("horizon", 400))
     if m == "trace":
         return Trace(spec.get("choices", ()), make_chooser(spec["then"]) if spec.get("then") else None)
+    if m == "linepreempt":
+        return LinePreempt(spec["k"], tuple(spec.get("kinds", ("line",))))
     raise ValueError(m)
 
 
@@ -1291,3 +1293,30 @@ def explore_bounded(run_once: Callable[[Chooser], Any], max_preempt: int, *, max
         if nxt is None or runs >= max_runs:
             return
         prefix = nxt
+
+
+class LinePreempt(Chooser):
+    """Non-preempting schedule, except that the task executing the k-th line-level yield point is demoted for the rest
+    of the run (it only runs when nothing else can). Enumerating k gives every 'one long preemption at a source line'
+    schedule - the shape of most check-then-act races - in O(lines) runs. Needs Scheduler.on_yield = chooser.on_yield."""
+
+    def __init__(self, k: int, kinds=("line",)):
+        self.k = k
+        self.kinds = set(kinds)
+        self.n = 0
+        self.demoted: set[int] = set()
+        self.total = 0
+
+    def on_yield(self, sched, task, kind):
+        if kind in self.kinds:
+            if self.n == self.k:
+                self.demoted.add(task.id)
+            self.n += 1
+            self.total = self.n
+
+    def choose(self, enabled, cur, step):
+        pref = [t for t in enabled if t.id not in self.demoted]
+        pool = pref or enabled
+        if cur is not None and cur in pool:
+            return enabled.index(cur)
+        return enabled.index(pool[0])
